@@ -261,19 +261,29 @@ func statusName(st refparse.Status) string {
 }
 
 var plainNum = regexp.MustCompile(`^[1-9][0-9]{0,8}$`)
+var plainWord = regexp.MustCompile(`^[a-z]{1,8}$`)
 
 // plainDegrees: a sentence `text conv degree` has no reason of its own to refuse - scale degrees 1..7, dictionary
 // symbols, positive durations without padding, no metadata.
 func plainDegrees(items []refparse.Item) bool {
 	okDeg := func(d refparse.Deg) bool {
-		return len(d.Head) == 1 && d.Head[0] >= '1' && d.Head[0] <= '7' && (d.Acc == "" || d.Acc == "b" || d.Acc == "#")
+		return len(d.Head) == 1 && d.Head[0] >= '1' && d.Head[0] <= '7' && (d.Acc == "" || d.Acc == "b" || d.Acc == "#" || d.Acc == "\u266d" || d.Acc == "\u266f")
 	}
 	chords := 0
 	for _, it := range items {
 		if !it.Rest {
 			chords++
 		}
-		if it.HasMeta || len(it.Vals) == 0 {
+		if len(it.Vals) == 0 {
+			return false
+		}
+		for _, kv := range it.Meta {
+			// texts only: they are carried through as written (settings such as bpm are interpreted)
+			if (kv[0] != "txt" && kv[0] != "lic" && kv[0] != "mrk") || !plainWord.MatchString(kv[1]) {
+				return false
+			}
+		}
+		if it.HasMeta && len(it.Meta) == 0 {
 			return false
 		}
 		for _, v := range it.Vals {
@@ -329,6 +339,7 @@ func checkC04Conv(c C04Case) *Violation {
 	var out []struct {
 		Chord  *struct{ Degree string } `yaml:"chord"`
 		Values []string                 `yaml:"values"`
+		Meta   map[string]string        `yaml:"meta"`
 	}
 	if err := yaml.Unmarshal(res.Stdout, &out); err != nil {
 		return vio("conv-output", "text conv output unreadable: %v\n%s", err, res.Stdout)
@@ -347,6 +358,22 @@ func checkC04Conv(c C04Case) *Violation {
 				w += "/" + v.Den // n/1 is printed n; nothing else is reduced
 			}
 			want = append(want, w)
+		}
+		seen := map[string]bool{}
+		for _, kv := range it.Meta {
+			if seen[kv[0]] {
+				continue // a key written twice: which one wins is not stated
+			}
+			seen[kv[0]] = true
+			n := 0
+			for _, kv2 := range it.Meta {
+				if kv2[0] == kv[0] {
+					n++
+				}
+			}
+			if n == 1 && out[i].Meta[kv[0]] != kv[1] {
+				return vio("conv-meta", "`crd text conv degree` on %q: item %d has %s=%q, written %q", c.Text, i, kv[0], out[i].Meta[kv[0]], kv[1])
+			}
 		}
 		if strings.Join(want, ",") != strings.Join(out[i].Values, ",") {
 			return vio("conv-values", "`crd text conv degree` on %q: item %d has durations %v, written %v", c.Text, i, out[i].Values, want)
@@ -645,7 +672,7 @@ func TestC04Sentences(t *testing.T) {
 				return strconv.Itoa(rapid.IntRange(1, 12).Draw(t, l))
 			}
 			deg := func(l string) string {
-				return strconv.Itoa(rapid.IntRange(1, 7).Draw(t, l)) + rapid.SampledFrom([]string{"", "", "b", "#"}).Draw(t, l+"-acc")
+				return strconv.Itoa(rapid.IntRange(1, 7).Draw(t, l)) + rapid.SampledFrom([]string{"", "", "b", "#", "\u266d", "\u266f"}).Draw(t, l+"-acc")
 			}
 			for i := 0; i < n; i++ {
 				if i > 0 && coin(t, "plain-rest", 25) {
@@ -670,7 +697,17 @@ func TestC04Sentences(t *testing.T) {
 						sb.WriteString("/" + num("plain-den"))
 					}
 				}
-				sb.WriteString("] ")
+				sb.WriteString("]")
+				if coin(t, "plain-meta", 30) {
+					ks := []string{"txt", "lic", "mrk"}
+					k0 := rapid.IntRange(0, 2).Draw(t, "plain-meta-key")
+					sb.WriteString("{" + ks[k0] + "=" + rapid.StringMatching(`[a-z]{1,8}`).Draw(t, "plain-meta-v"))
+					if rapid.Bool().Draw(t, "plain-meta-two") {
+						sb.WriteString("," + ks[(k0+1)%3] + "=" + rapid.StringMatching(`[a-z]{1,8}`).Draw(t, "plain-meta-v2"))
+					}
+					sb.WriteString("}")
+				}
+				sb.WriteString(" ")
 			}
 			cc := C04Case{Text: sb.String(), CLI: true, Conv: true}
 			if ref, ok := refparse.Parse(cc.Text); !ok || !plainDegrees(ref) {
